@@ -4278,4 +4278,87 @@ end Edges
 
 /-! uninterpreted in specs.py, NO schema emitted: `evnest` (and `gedge1`, `gedge2` are arbitrary functions). -/
 
+
+/-! # Eighteenth batch: `degsum` (and the `iapp` schemas found alongside) -/
+
+/-- `ilen(iapp(s, t)) == ilen(s) + ilen(t)` -/
+theorem ilen_iapp (s t : ISeq) : ilen (iapp s t) = ilen s + ilen t := by simp [ilen, iapp]
+/-- `haszero(iapp(s, t)) == Or(haszero(s), haszero(t))` -/
+theorem haszero_iapp (s t : ISeq) : haszero (iapp s t) ↔ (haszero s ∨ haszero t) := by
+  unfold haszero iapp; exact List.mem_append
+/-- `maxabs(iapp(s, t)) == zmax(maxabs(s), maxabs(t))` -/
+theorem maxabs_iapp (s t : ISeq) : maxabs (iapp s t) = zmax (maxabs s) (maxabs t) := by
+  rw [zmax_eq_max]; exact maxabs_append s t
+/-- `count(a, iapp(s, t)) == count(a, s) + count(a, t)` -/
+theorem count_iapp (a : Asg) (s t : ISeq) : count a (iapp s t) = count a s + count a t := by
+  unfold count countTrue iapp
+  rw [List.countP_append]; push_cast; rfl
+
+section DegSum
+
+-- right neighbours of left vertex u in the bipartite graph g: an ARBITRARY function
+variable (rnbrs : ℤ → ℤ → ISeq)
+
+def degsumN (g : ℤ) : ℕ → ℤ
+  | 0 => 0
+  | m + 1 => degsumN g m + ilen (rnbrs g ((m : ℤ) + 1))
+
+/-- number of edges at the left vertices `1..u` (0 for `u < 0`) -/
+def degsum (g u : ℤ) : ℤ := degsumN rnbrs g u.toNat
+
+/-- `u == 0 -> degsum(g, u) == 0` -/
+theorem degsum_zero (g u : ℤ) : u = 0 → degsum rnbrs g u = 0 := by
+  rintro rfl; rfl
+
+/-- `u >= 0 -> degsum(g, u + 1) == degsum(g, u) + ilen(rnbrs(g, u + 1))` -/
+theorem degsum_succ (g u : ℤ) :
+    u ≥ 0 → degsum rnbrs g (u + 1) = degsum rnbrs g u + ilen (rnbrs g (u + 1)) := by
+  intro h
+  have h1 : (u + 1).toNat = u.toNat + 1 := by omega
+  have h2 : ((u.toNat : ℕ) : ℤ) = u := by omega
+  unfold degsum
+  rw [h1, degsumN, h2]
+
+/-- `u >= 1 -> degsum(g, u) == degsum(g, u - 1) + ilen(rnbrs(g, u))` -/
+theorem degsum_pred (g u : ℤ) :
+    u ≥ 1 → degsum rnbrs g u = degsum rnbrs g (u - 1) + ilen (rnbrs g u) := by
+  intro h
+  have := degsum_succ rnbrs g (u - 1) (by omega)
+  rwa [sub_add_cancel] at this
+
+theorem degsumN_nonneg (g : ℤ) (m : ℕ) : 0 ≤ degsumN rnbrs g m := by
+  induction m with
+  | zero => exact le_rfl
+  | succ m ih =>
+    rw [degsumN]
+    have := len_nonneg (rnbrs g ((m : ℤ) + 1))
+    omega
+
+theorem degsumN_mono (g : ℤ) (m m' : ℕ) (h : m ≤ m') : degsumN rnbrs g m ≤ degsumN rnbrs g m' := by
+  induction m' with
+  | zero =>
+    have : m = 0 := by omega
+    subst this; exact le_rfl
+  | succ m' ih =>
+    by_cases hm : m = m' + 1
+    · subst hm; exact le_rfl
+    · have := ih (by omega)
+      rw [degsumN]
+      have h2 := len_nonneg (rnbrs g ((m' : ℤ) + 1))
+      omega
+
+/-- `u >= 0 -> degsum(g, u) >= 0` -/
+theorem degsum_nonneg (g u : ℤ) : u ≥ 0 → degsum rnbrs g u ≥ 0 := by
+  intro _; exact degsumN_nonneg rnbrs g _
+
+/-- `ilen(rnbrs(g, u)) >= 0` -/
+theorem ilen_rnbrs_nonneg (g u : ℤ) : ilen (rnbrs g u) ≥ 0 := len_nonneg _
+
+/-- `And(0 <= u2, u2 <= u) -> degsum(g, u2) <= degsum(g, u)` -/
+theorem degsum_mono (g u2 u : ℤ) : (0 ≤ u2 ∧ u2 ≤ u) → degsum rnbrs g u2 ≤ degsum rnbrs g u := by
+  rintro ⟨h0, h1⟩
+  exact degsumN_mono rnbrs g _ _ (by omega)
+
+end DegSum
+
 end CnfSem
